@@ -90,6 +90,18 @@ func (checker *ChecksumChecker) OnError(t *ast.Task) error {
 	return os.Remove(checker.checksumFilePath(t))
 }
 
+// OnStart drops the recorded checksum: the task's commands are about to run, and
+// only their successful completion (OnSuccess) records a checksum again.
+func (checker *ChecksumChecker) OnStart(t *ast.Task) error {
+	if len(t.Sources) == 0 || checker.dry {
+		return nil
+	}
+	if err := os.Remove(checker.checksumFilePath(t)); err != nil && !os.IsNotExist(err) {
+		return err
+	}
+	return nil
+}
+
 // OnSuccess records the run: the checksum computed by the up-to-date check
 // becomes the task's checksum.
 func (checker *ChecksumChecker) OnSuccess(t *ast.Task) error {
